@@ -1,6 +1,6 @@
 /-
   M-REPL: executable model of d-engine's log replication path (families `repl`; properties C08, C36, C07).
-  Core Lean only (no Mathlib) so that `drv_repl` links.  The model follows the code *as it is* (with fix F6).
+  Core Lean only (no Mathlib) so that `drv_repl` links.  The model follows the code *as it is* (with fixes F6 and F50).
 
   What models what (file, fn):
   * `Log`, `appendE`, `resetL`, `removeFrom`, `Log.entryTerm`, `Log.lastLogId`, `firstIndexForTerm`,
@@ -14,7 +14,8 @@
        reset on prev=(0,0) / prev mismatch / fast path (`overlap_safe`) / slow path (none, conflict, append).
   * `checkLegal`                                  — replication_handler.rs `check_append_entries_request_is_legal`
   * `ifUpdateCommit`                              — replication_handler.rs `if_update_commit_index_as_follower`
-  * `handleAppend`                                — replication_handler.rs `handle_append_entries` (ack contents)
+  * `handleAppend`, `prevId`                      — replication_handler.rs `handle_append_entries` (ack contents, commit rule on
+       `prev + len` = index of last new entry, never lowered — as fixed by F50, commit c57f05e)
   * `stepReq`                                     — raft_role/role_state.rs `handle_append_entries_request_workflow`
        (term check, term adoption, commit update, ONE response for all senders; the response carries the term of
        the `state_snapshot` taken in `FollowerState::handle_inbound_event` *before* the term is adopted)
@@ -167,12 +168,20 @@ def checkLegal (myTerm : Nat) (r : Req) (l : Log) : Ack × String :=
 def ifUpdateCommit (myCommit lastIdx leaderCommit : Nat) : Option Nat :=
   if leaderCommit > myCommit then some (min leaderCommit lastIdx) else none
 
-/-- `handle_append_entries` → (log, response, commit_index_update, tags). -/
+/-- what an empty (heartbeat) request is acknowledged with since fix F50: the position the request itself
+    verified, `(prev_log_index, prev_log_term)` (`None` for prev = 0) — not the follower's whole last log id. -/
+def prevId (r : Req) : Option (Nat × Nat) := if r.prev > 0 then some (r.prev, r.prevTerm) else none
+
+/-- `handle_append_entries` → (log, response, commit_index_update, tags). Since fix F50 the commit rule gets
+    `prev_log_index + entries.len()` ("index of last new entry"), and an update is reported only when it
+    raises the commit index. -/
 def handleAppend (snapTerm snapCommit : Nat) (r : Req) (l : Log) : Log × Ack × Option Nat × List String :=
   let chk := checkLegal snapTerm r l
   if chk.1.isSuccess then
-    let res := if r.ents.isEmpty then (l, l.lastLogId, "heartbeat") else filterAppend l r.prev r.prevTerm r.ents
-    let cu := ifUpdateCommit snapCommit res.1.lastIdx r.commit
+    let res := if r.ents.isEmpty then (l, prevId r, "heartbeat") else filterAppend l r.prev r.prevTerm r.ents
+    let cu := match ifUpdateCommit snapCommit (r.prev + r.ents.length) r.commit with
+      | some c => if c > snapCommit then some c else none
+      | none => none
     (res.1, .success snapTerm res.2.1, cu, [chk.2, res.2.2, if cu.isSome then "commit-update" else "commit-keep"])
   else (l, chk.1, none, [chk.2])
 
@@ -371,11 +380,6 @@ def mergeable (maxMerge : Nat) (st : FState) (r : Req) (rest : List (Req × Nat)
   allMerge maxMerge r (r.prev + r.ents.length) rest && r.contig && termsMono r.ents && chainWF r rest &&
   st.log.wf && segOK st.log
 
-/-- the follower's log does not reach beyond the end of the first request once that request is handled
-    (no unverified tail behind the chain). -/
-def noTail (st : FState) (r : Req) : Bool :=
-  decide ((stepReq st r).1.log.lastIdx ≤ r.prev + r.ents.length)
-
 def Ack.matchId : Ack → Option (Nat × Nat)
   | .success _ m => m
   | _ => none
@@ -386,19 +390,6 @@ def Ack.matchId : Ack → Option (Nat × Nat)
 def ackEquiv (merged seq : List Ack) : Bool :=
   merged.length == seq.length && merged.all Ack.isSuccess && seq.all Ack.isSuccess &&
   merged.all (fun a => a.matchId == (seq.getLast?.bind Ack.matchId))
-
-/-- along one-at-a-time processing the follower's last index never moves backwards (no request truncates
-    a tail that an earlier request of the queue left in place). -/
-def noShrink (s : FState) : List (Req × Nat) → Bool
-  | [] => true
-  | (r, _) :: rest => decide (s.log.lastIdx ≤ (stepReq s r).1.log.lastIdx) && noShrink (stepReq s r).1 rest
-
-/-- the last request of the queue carries entries, or no request so far carried any, or the log it meets
-    (one-at-a-time processing) ends exactly at its prev index. `hb` = "only heartbeats so far". -/
-def ackAnchored (s : FState) (hb : Bool) : List (Req × Nat) → Bool
-  | [] => true
-  | [(r, _)] => !r.ents.isEmpty || hb || decide (s.log.lastIdx ≤ r.prev)
-  | (r, _) :: rest => ackAnchored (stepReq s r).1 (hb && r.ents.isEmpty) rest
 
 /-- all requests merged into one (the loop of `merge_append_entries` with every test passing). -/
 def mergeAll (acc : Req) : List (Req × Nat) → Req
